@@ -5,7 +5,12 @@ spec/net/ChainSyncClient.tla  goroutine-level model of Sync/syncLoop/handlers/St
 spec/net/ChainSyncTrace.tla   the same observer replayed over traces recorded from the REAL client
 harness/cmd/c21               real chainsync client against the library's own chainsync server over two muxers,
                               driven by the TLC-generated server histories and by long seeded ones
+
+Block pipeline dimension (Config.Pipeline, node-to-client): ChainSyncClientPipe*.cfg model-check the client composed
+with a pipeline (Submit / apply in order / drain before the roll-backward callback) and emit the same histories with
+pipe = TRUE; the driver runs them with a real pipeline.BlockPipeline whose ApplyFunc is the roll-forward callback.
 """
+import concurrent.futures
 import json
 import os
 import random
@@ -15,6 +20,7 @@ import vlib
 
 LIMITS = [0, 1, 2, 50]          # 100 is handed out sparingly: as coded, Stop() hangs with it (F-C21-stopfull)
 BUGS = ["offbyone", "counter", "signal_first", "await_cb", "small_chan"]
+PIPE_BUGS = ["nodrain", "drain_queued"]     # defects of the block pipeline dimension (Pipes = {TRUE})
 
 
 def slug(rule):
@@ -28,6 +34,8 @@ def plan_fields(pid):
     parts = pid.split("|")
     lim = next((p[4:] for p in parts if p.startswith("lim=")), "?")
     mode = next((p for p in parts if p in ("ntn", "ntc")), "?")
+    if any(p.startswith("pipe=") for p in parts):
+        mode += "-pipe"                     # conversations with a block pipeline have their own keys
     return lim, mode
 
 
@@ -79,8 +87,10 @@ def bug_cfg(d, bug):
     p = os.path.join(d, "ChainSyncClientBug_%s.cfg" % bug)
     with open(p, "w") as f:
         f.write('CONSTANTS\n  Limits = {0, 1, 2, 3}\n  Default = 4\n  MaxHist = 3\n  WithStop = TRUE\n'
-                '  Bug = "%s"\n  QCap = 5\n  StopFix = FALSE\n  EmitMax = 0\nSPECIFICATION Spec\n'
-                'INVARIANTS Safe TokensFit TermStop TermDelivered\nCHECK_DEADLOCK FALSE\n' % bug)
+                '  Bug = "%s"\n  QCap = 5\n  StopFix = FALSE\n  EmitMax = 0\n  Pipes = {%s}\n  PCap = 2\n'
+                'SPECIFICATION Spec\n'
+                'INVARIANTS Safe TokensFit TermStop TermDelivered\nCHECK_DEADLOCK FALSE\n'
+                % (bug, "TRUE" if bug in PIPE_BUGS else "FALSE"))
     return p
 
 
@@ -90,7 +100,7 @@ def model_selftest(chk):
     repaired Stop() passes."""
     d = vlib.scratch("c21cfg-")
     caught = {}
-    for b in BUGS:
+    for b in BUGS + PIPE_BUGS:
         p = bug_cfg(d, b)
         r = vlib.run_tlc("net/ChainSyncClient", cfg=os.path.basename(p), files=[p], workers=4, timeout=900)
         if r.ok or not r.violated:
@@ -118,7 +128,7 @@ def binding_selftest(chk, lines, starts):
         en = starts[k + 1] if k + 1 < len(starts) else len(lines)
         evs = [json.loads(x) for x in lines[st:en]]
         if 30 < len(evs) < 400 and sum(1 for e in evs if e["ev"] == "CbBegin") >= 3 and evs[-1]["s1"] == "complete" \
-                and evs[0]["a"] in (1, 2):
+                and evs[0]["a"] in (1, 2) and evs[0].get("mt", 0) == 0:
             pick = evs
             break
     if pick is None:
@@ -148,6 +158,56 @@ def binding_selftest(chk, lines, starts):
         raise vlib.MachineryError("binding self-test: corrupted traces accepted: %s" % ", ".join(missed))
     chk.extra["binding_selftest_rejected"] = {muts[i][0]: next(r for s, _, r in rej if s == st)[:60]
                                               for i, st in enumerate(sts)}
+    pipe_binding_selftest(chk, lines, starts)
+
+
+def pipe_binding_selftest(chk, lines, starts):
+    """The same for a trace of a conversation with a block pipeline: F.B with the roll-backward callback moved
+    in front of / into the apply of the block, applies swapped, an apply dropped."""
+    pick = None
+    for k, st in enumerate(starts):
+        en = starts[k + 1] if k + 1 < len(starts) else len(lines)
+        evs = [json.loads(x) for x in lines[st:en]]
+        if evs[0].get("mt", 0) != 1 or len(evs) > 400 or evs[-1]["s1"] != "complete":
+            continue
+        cb = [(i, e["s1"]) for i, e in enumerate(evs) if e["ev"] == "CbBegin"]
+        kinds = [k for _, k in cb]
+        if len(cb) >= 3 and kinds[:2] == ["F", "F"] and "B" in kinds:
+            pick = evs
+            break
+    if pick is None:
+        chk.extra["binding_selftest_pipeline"] = "no suitable trace"
+        return
+    cb = [(i, e["s1"]) for i, e in enumerate(pick) if e["ev"] == "CbBegin"]
+    ends = [i for i, e in enumerate(pick) if e["ev"] == "CbEnd"]
+    b = next(n for n, (_, k) in enumerate(cb) if k == "B")       # the first roll-backward callback, after >= 2 applies
+    ib, ieb = cb[b][0], ends[b]
+    ia, iea = cb[b - 1][0], ends[b - 1]                             # the apply before it
+    without = lambda idx: [e for i, e in enumerate(pick) if i not in idx]
+    muts = []
+    # roll-backward callback entered (and returned) before the previous block's apply was entered
+    muts.append(("pipeline: rollback callback before the apply of an earlier block",
+                 pick[:ia] + [pick[ib], pick[ieb]] + without({ib, ieb})[ia:]))
+    # ... entered while that apply is running
+    muts.append(("pipeline: rollback callback during the apply of an earlier block",
+                 pick[:ia + 1] + [pick[ib]] + without({ib})[ia + 1:]))
+    muts.append(("pipeline: applies swapped",
+                 pick[:cb[0][0]] + [pick[cb[1][0]]] + pick[cb[0][0] + 1:cb[1][0]] + [pick[cb[0][0]]] + pick[cb[1][0] + 1:]))
+    muts.append(("pipeline: apply dropped", without({ia, iea})))
+    muts.append(("pipeline: block applied twice", pick[:iea + 1] + [pick[ia], pick[iea]] + pick[iea + 1:]))
+    d = vlib.scratch("c21mutp-")
+    p = os.path.join(d, "mut.ndjson")
+    with open(p, "w") as f:
+        for _, evs in muts:
+            for e in evs:
+                f.write(json.dumps(e, separators=(",", ":")) + "\n")
+    ls, sts, rej = validate(None, p, timeout=600)
+    bad = {st for st, _, rule in rej if not rule.startswith("Z:")}
+    missed = [muts[i][0] for i, st in enumerate(sts) if st not in bad]
+    if missed:
+        raise vlib.MachineryError("binding self-test: corrupted traces accepted: %s" % ", ".join(missed))
+    chk.extra["binding_selftest_pipeline_rejected"] = {muts[i][0]: next(r for s, _, r in rej if s == st)[:60]
+                                                       for i, st in enumerate(sts)}
 
 
 def run(chk, replay=None):
@@ -156,7 +216,9 @@ def run(chk, replay=None):
                 "real muxers: a server history over {F, B, AF, AB} generated by TLC from ChainSyncClient.tla (all "
                 "histories up to length 4 quick / a seeded sample up to 6 thorough) or a long seeded one, a configured "
                 "pipeline limit in {0,1,2,50,100}, NtN or NtC, raw or decoded callback, slow callbacks, Stop at the end "
-                "or in the middle; the recorded trace is replayed by TLC through the observer the model is checked "
+                "or in the middle, without or (NtC) with a real pipeline.BlockPipeline as Config.Pipeline (prefetch "
+                "buffer 1/2/4/1000, 1-4 decode workers, slow applies, blocks held inside the pipeline by its verif "
+                "hook): the roll-forward callback is then the pipeline's ApplyFunc; the recorded trace is replayed by TLC through the observer the model is checked "
                 "against; distinct = distinct plans; non-trivial = history not empty")
     chk.assumptions = [
         "engine hooks log at linearization points (Deq before the segment is written, Handle before the handler); the "
@@ -166,7 +228,11 @@ def run(chk, replay=None):
         "configured-0 case only)",
         "a conversation is declared stalled only when every queue is empty, every request answered and nothing moves "
         "for 8 s; Stop is declared hung when nothing at all happens for 12 s after the call (its own waits sum to 5.25 s)",
-        "the BlockPipeline path of handleRollForward (Config.Pipeline) is not exercised here (C42-C44 cover the pipeline)",
+        "block pipeline: the pipeline itself (apply in submission order, WaitForDrain sound) is C42-C44's; here the "
+        "client is composed with it: every block handed over is applied once, in the server's order, with its tip, and "
+        "the roll-backward callback is entered only when all earlier blocks have been applied. Blocks handed over "
+        "before Stop may be applied after Stop returned (the property is silent); the apply callbacks finish well "
+        "within PipelineDrainTimeout (30 s)",
         "model timing assumptions: Stop gives up on busyMutex only when the sync loop is blocked on a full send queue; "
         "the 250 ms drain wait only expires when the send loop is blocked",
     ]
@@ -184,16 +250,26 @@ def run(chk, replay=None):
 
     # ---- 1. the model
     cfg = "ChainSyncClientThorough.cfg" if thorough else "ChainSyncClient.cfg"
-    r = vlib.run_tlc("net/ChainSyncClient", cfg=cfg, workers=8, timeout=2400, coverage=thorough)
+    lcfg = "ChainSyncClientLiveThorough.cfg" if thorough else "ChainSyncClientLive.cfg"
+    pcfg = "ChainSyncClientPipeThorough.cfg" if thorough else "ChainSyncClientPipe.cfg"
+    # the three model-checking runs are independent: side by side (the quick tier runs on every change)
+    with concurrent.futures.ThreadPoolExecutor(max_workers=3) as ex:
+        fr = ex.submit(vlib.run_tlc, "net/ChainSyncClient", cfg=cfg, workers=6, timeout=2400, coverage=thorough)
+        fl = ex.submit(vlib.run_tlc, "net/ChainSyncClient", cfg=lcfg, workers=3, timeout=2400)
+        fp = ex.submit(vlib.run_tlc, "net/ChainSyncClient", cfg=pcfg, workers=5, timeout=2400)
+        r, rl, rp = fr.result(), fl.result(), fp.result()
     vlib.tlc_must_pass(r, cfg)
     chk.add_tlc(cfg, r)
     rows = vlib.read_ndjson(os.path.join(r.dir, "plans.ndjson"))
     if thorough and r.coverage_zero:
         chk.extra["model_actions_never_taken"] = sorted(set(r.coverage_zero))
-    lcfg = "ChainSyncClientLiveThorough.cfg" if thorough else "ChainSyncClientLive.cfg"
-    rl = vlib.run_tlc("net/ChainSyncClient", cfg=lcfg, workers=4, timeout=2400)
     vlib.tlc_must_pass(rl, lcfg)
     chk.add_tlc(lcfg, rl)
+    vlib.tlc_must_pass(rp, pcfg)
+    chk.add_tlc(pcfg, rp)
+    prows = vlib.read_ndjson(os.path.join(rp.dir, "plans.ndjson"))
+    if any(x.get("pipe") for x in rows) or not all(x.get("pipe") for x in prows):
+        raise vlib.MachineryError("plans: the pipe flag of the emitted histories does not match the configurations")
     if thorough:
         model_selftest(chk)
 
@@ -218,6 +294,19 @@ def run(chk, replay=None):
         for lim in (0, 1, 2, 50, 100):
             for k in range(3):
                 sel.append({"gen": 400 + 150 * k, "limit": lim, "mode": ["ntn", "ntc"][k % 2]})
+    # the same histories with a block pipeline (appended: the plans above keep their indices and seeds)
+    pshort = [x for x in prows if x["n"] <= (3 if thorough else 2)]
+    prest = [x for x in prows if x["n"] > (3 if thorough else 2)]
+    rng.shuffle(prest)
+    psel = pshort + prest[:(500 if thorough else 45)]
+    for i, x in enumerate(psel):
+        x["limit"] = LIMITS[(i + chk.seed) % len(LIMITS)]
+        x["mode"] = "ntc"
+    for lim, n in ((0, 120), (1, 60), (2, 100), (50, 150)):
+        psel.append({"gen": n * scale, "limit": lim, "mode": "ntc", "pipe": True})
+    if thorough:
+        psel.append({"gen": 800, "limit": 100, "mode": "ntc", "pipe": True})
+    sel += psel
 
     # ---- 3. the real client
     drv = vlib.go_build("c21")
